@@ -339,15 +339,17 @@ type group struct {
 }
 
 type caseResult struct {
-	Evals    int64            `json:"evals"`    // trace comparisons against a baseline
-	Runs     int64            `json:"runs"`     // runtime life cycles executed
-	Scen     int64            `json:"scen"`     // lattice points / order scenarios executed
-	Counts   map[string]int64 `json:"counts"`   // outcome histogram
-	Digests  []string         `json:"digests"`  // distinct baseline trace digests
-	Viols    []viol           `json:"viols"`    // lattice violations (already minimal)
-	Groups   []*group         `json:"groups"`   // order violations (minimal), to be merged by the parent
-	Unrepro  []string         `json:"unrepro"`  // differences that did not recur in two re-executions (noted, not reported)
-	CorpusEr string           `json:"corpuser"` // corpus self-check failure (harness error)
+	Evals   int64            `json:"evals"`   // trace comparisons against a baseline
+	Runs    int64            `json:"runs"`    // runtime life cycles executed
+	Scen    int64            `json:"scen"`    // lattice points / order scenarios executed
+	Counts  map[string]int64 `json:"counts"`  // outcome histogram
+	Digests []string         `json:"digests"` // distinct baseline trace digests
+	Viols   []viol           `json:"viols"`   // lattice violations (already minimal)
+	Groups  []*group         `json:"groups"`  // order violations (minimal), to be merged by the parent
+	Unrepro []string         `json:"unrepro"` // differences that did not recur in two re-executions (noted, not reported)
+	// NeverCompiles: the program is rejected at the baseline AND at every other lattice point of this case. Only
+	// if that holds for every lattice case of the program (both engines, both bases) is it a corpus error.
+	NeverCompiles string `json:"nevercompiles"`
 }
 
 func traceDigest(tr []string) string { return fmt.Sprintf("%x", fnv(strings.Join(tr, "\n"))) }
@@ -389,6 +391,14 @@ type latticeReplay struct {
 	Limit   uint32 `json:"limit"`
 	Program string `json:"program"`
 	Point   point  `json:"point"`
+	// for compile-outcome differences: the other configuration and what each of the two does
+	Other    *point            `json:"other_point,omitempty"`
+	Outcomes map[string]string `json:"outcomes,omitempty"`
+}
+
+// rejected: the program (or its library, or the host module) was not accepted in this run.
+func rejected(tr []string) bool {
+	return hasLine(tr, "env err") || hasLine(tr, "compile err") || hasLine(tr, "compile lib err")
 }
 
 // latticeCase runs the whole lattice for one (engine, base limit, program). only >= 0 restricts it to one point.
@@ -412,9 +422,31 @@ func (e *env) latticeCase(tier, engine string, limit uint32, p *program, only in
 		return r
 	}
 	b := baseline(false)
-	if !p.MayFailCompile && (hasLine(b.tr, "env err") || hasLine(b.tr, "compile err") || hasLine(b.tr, "compile lib err")) {
-		res.CorpusEr = fmt.Sprintf("program %s does not compile at the baseline (%s, limit %d): %v", p.Name, engine, limit, b.tr)
-		return res
+	// The baseline is not privileged: a program it rejects is only a corpus problem if EVERY point rejects it.
+	// Otherwise the acceptance difference is the property's violation (reported at the minimal accepting
+	// points), and the accepting points are compared among themselves against the first of them.
+	baseRejects := rejected(b.tr)
+	var alt *rtRun
+	var altPt point
+	if baseRejects {
+		for _, pt := range lattice {
+			s := pt.settings(engine, limit)
+			if hugeCapacity(p, s) {
+				continue
+			}
+			runs := e.runPoint(p, s, pt.Cache)
+			res.Runs += int64(len(runs))
+			if !rejected(runs[0].tr) {
+				alt, altPt = runs[0], pt
+				break
+			}
+		}
+		if alt == nil {
+			res.NeverCompiles = fmt.Sprintf("%s is rejected at every lattice point (%s, limit %d): %v", p.Name, engine, limit, b.tr)
+			e.inc("lattice:program-rejected-at-every-point")
+			return res
+		}
+		e.inc("lattice:baseline-rejects-what-another-point-accepts")
 	}
 	lstRefs := map[string]string{} // listener events at (no cache, that listener value only [+cod for termination-sensitive programs])
 	pts := lattice
@@ -458,6 +490,14 @@ func (e *env) latticeCase(tier, engine string, limit uint32, p *program, only in
 				if worst == "" {
 					worst, wdetail = k, fmt.Sprintf("runtime %d of the point: %s", ri+1, d)
 				}
+				if baseRejects && !rejected(r.tr) && !(p.TermSensitive && s.COD) {
+					// an accepting point: its behaviour must equal that of the first accepting point
+					if k2, d2 := diffTraces(alt.tr, r.tr); k2 != "" {
+						e.inc("lattice:diff:among-accepting-points:" + k2)
+						fails = append(fails, fail{pt, "among-accepting-points:" + k2,
+							fmt.Sprintf("runtime %d of the point differs from the first accepting point (cache=%s toggles=[%s]): %s", ri+1, altPt.Cache, altPt.settings(engine, limit).toggles(), d2)})
+					}
+				}
 				continue
 			}
 			if s.Listener {
@@ -499,7 +539,7 @@ func (e *env) latticeCase(tier, engine string, limit uint32, p *program, only in
 	for _, f := range fails {
 		minimal := true
 		for _, g := range fails {
-			if g.pt != f.pt && g.key == f.key && g.pt.LMode == f.pt.LMode && g.pt.Bits&^f.pt.Bits == 0 && cacheLE(g.pt.Cache, f.pt.Cache) {
+			if g.pt != f.pt && g.key == f.key && (g.pt.LMode == f.pt.LMode || (g.pt.LMode == "" && g.pt.Bits&16 == 0)) && g.pt.Bits&^f.pt.Bits == 0 && cacheLE(g.pt.Cache, f.pt.Cache) {
 				minimal = false
 				break
 			}
@@ -518,10 +558,22 @@ func (e *env) latticeCase(tier, engine string, limit uint32, p *program, only in
 		if tg == "" {
 			tg = "none"
 		}
+		rp := latticeReplay{Kind: "lattice", Tier: tier, Engine: engine, Limit: limit, Program: p.Name, Point: f.pt}
+		sig := fmt.Sprintf("lattice:%s:%s:cache=%s:toggles=%s:%s", engine, f.key, f.pt.Cache, tg, tag)
+		if f.key == "compile:ok->err" || f.key == "compile:err->ok" || f.key == "compile-lib:ok->err" || f.key == "compile-lib:err->ok" {
+			// acceptance depends on the configuration: neither side is "right"
+			dir, here, there := "baseline-accepts", "rejected", "accepted"
+			if strings.HasSuffix(f.key, "err->ok") {
+				dir, here, there = "baseline-rejects", "accepted", "rejected"
+			}
+			sig = fmt.Sprintf("lattice:%s:compile-outcome-differs:toggles=%s:cache=%s:%s:%s", engine, tg, f.pt.Cache, dir, tag)
+			rp.Other = &point{Cache: "none"}
+			rp.Outcomes = map[string]string{"point": here, "other_point (no cache, all toggles off)": there}
+		}
 		res.Viols = append(res.Viols, viol{
-			Sig:    fmt.Sprintf("lattice:%s:%s:cache=%s:toggles=%s:%s", engine, f.key, f.pt.Cache, tg, tag),
+			Sig:    sig,
 			What:   fmt.Sprintf("%s, program %s, memory limit %d pages, cache=%s toggles=[%s]: %s", engine, p.Name, s.limit(), f.pt.Cache, tg, f.detail),
-			Replay: latticeReplay{"lattice", tier, engine, limit, p.Name, f.pt},
+			Replay: rp,
 		})
 	}
 	return res
@@ -1109,6 +1161,8 @@ func main() {
 	groups := map[string]*group{}
 	var lviols []viol
 	var crashed []int
+	latticeCases := map[int]int{}       // program -> lattice cases completed
+	neverCompiles := map[int][]string{} // program -> cases in which no point at all accepts it
 	batchCrash := map[int]*fw.Crash{}
 	perKind := map[string]int64{}
 	workers := runtime.NumCPU()
@@ -1119,9 +1173,11 @@ func main() {
 			finish()
 			fw.Fatalf("case %d: bad child result: %v: %.200s", ci, err, res)
 		}
-		if r.CorpusEr != "" {
-			finish()
-			fw.Fatalf("corpus self-check: %s", r.CorpusEr)
+		if cases[ci].Kind == "lattice" {
+			latticeCases[cases[ci].Prog]++
+			if r.NeverCompiles != "" {
+				neverCompiles[cases[ci].Prog] = append(neverCompiles[cases[ci].Prog], r.NeverCompiles)
+			}
 		}
 		for _, u := range r.Unrepro {
 			run.Note("unreproduced difference (not reported): %s", u)
@@ -1189,7 +1245,7 @@ func main() {
 					s := pt.settings(c.Engine, c.Limit)
 					cls = fmt.Sprintf("lattice:cache=%s:toggles=%s", pt.Cache, s.toggles())
 					what = fmt.Sprintf("program %s, limit %d, cache=%s toggles=[%s]", corpus[c.Prog].Name, s.limit(), pt.Cache, s.toggles())
-					rp = latticeReplay{"lattice", run.Tier, c.Engine, c.Limit, corpus[c.Prog].Name, pt}
+					rp = latticeReplay{Kind: "lattice", Tier: run.Tier, Engine: c.Engine, Limit: c.Limit, Program: corpus[c.Prog].Name, Point: pt}
 				} else {
 					sc := enumScenarios(c.Cache, scenLevel(corpus[c.Prog], thorough))[j]
 					cls = fmt.Sprintf("order:tuple=%s:mode=%s:life=%s:cache=%s", strings.Join(sc.Tuple, ""), sc.Mode, sc.Life, sc.Cache)
@@ -1233,6 +1289,21 @@ func main() {
 			run.Note("case %d (%s %s limit %d program %s cache %q): the child %s once, no single scenario and neither of two further whole-case runs reproduced it: %s",
 				ci, c.Kind, c.Engine, c.Limit, corpus[c.Prog].Name, c.Cache, first.Kind, fw.FirstLines(first.Stderr, 2))
 		}
+	}
+	// corpus self-check: a program no configuration of either engine accepts says nothing (harness error);
+	// one that only some case never accepts is noted (engine differences are another property's subject).
+	var npi []int
+	for pi := range neverCompiles {
+		npi = append(npi, pi)
+	}
+	sort.Ints(npi)
+	for _, pi := range npi {
+		if len(neverCompiles[pi]) == latticeCases[pi] {
+			finish()
+			fw.Fatalf("corpus self-check: program %s is rejected at every lattice point of every case: %s", corpus[pi].Name, neverCompiles[pi][0])
+		}
+		sort.Strings(neverCompiles[pi])
+		run.Note("program %s is never accepted in %d of its %d lattice cases: %s", corpus[pi].Name, len(neverCompiles[pi]), latticeCases[pi], neverCompiles[pi][0])
 	}
 	for i, c := range cases { // samples in case order (the callback order is not deterministic)
 		if !caseDone[i] {
